@@ -645,6 +645,32 @@ func c14Refusals(spec c14Spec, res *core.CaseResult, verbose bool) {
 	try("target-already-used", c.Branch(), s2, w.tgt.Hex(), w.sig(s2, w.tgt))
 	// a migrated target address used as a source is refused as well (it has a record)
 	try("former-target-as-source", c.Branch(), w.tgt.Acc(), stranger.Hex(), w.sig(w.tgt.Acc(), stranger))
+	// the same two reuse cases after the migration of an account that holds balances only (the target then has
+	// no staking records, so nothing but the migration records can refuse)
+	{
+		ctx := c.Branch()
+		p3 := srcKey(spec.Seed, "src3")
+		s3 := sdk.AccAddress(p3.PubKey().Address())
+		acc3 := c.App.AccountKeeper.NewAccountWithAddress(ctx, s3)
+		_ = acc3.SetPubKey(p3.PubKey())
+		c.App.AccountKeeper.SetAccount(ctx, acc3)
+		t3 := chain.DeriveKey(spec.Seed, "tgt3", 0)
+		if err := c.App.BankKeeper.SendCoins(ctx, s2, s3, sdk.NewCoins(chain.FXCoin(3))); err != nil {
+			res.Inconclusive = "fund plain source: " + err.Error()
+			return
+		}
+		if r := c.MsgOn(ctx, &migratetypes.MsgMigrateAccount{From: s3.String(), To: t3.Hex().Hex(), Signature: w.sig(s3, t3)}); !r.OK() {
+			res.Violate("C14/valid-migration-refused", "migration of an account with balances only refused: %s", r.ErrString())
+			return
+		}
+		res.Count("migrations_ok", 1)
+		b1, _ := ctx.CacheContext()
+		try("plain-target-already-used", b1, s2, t3.Hex(), w.sig(s2, t3))
+		b2, _ := ctx.CacheContext()
+		try("plain-source-already-migrated", b2, s3, stranger.Hex(), w.sig(s3, stranger))
+		b3, _ := ctx.CacheContext()
+		try("plain-former-target-as-source", b3, t3.Acc(), stranger.Hex(), w.sig(t3.Acc(), stranger))
+	}
 }
 
 func sortedKeys(m map[string]string) []string {
